@@ -61,6 +61,8 @@ fn main() {
         "bar_cells" => c11::bar_cells(rest),
         "render_wide" => c11::render_wide(rest),
         "render_lines" => c11::render_lines(rest),
+        "template_fields" => c10::template_fields(rest),
+        "pos_arith" => c05::pos_arith(rest),
         "template_total" => c10::template_total(rest),
         "template_order" => c10::template_order(rest),
         _ => format!("{{\"found\": false, \"error\": \"unknown routine {}\"}}", routine),
